@@ -243,3 +243,61 @@ Proof.
   pose proof (prefix_eq_sound _ _ H j) as Hs. rewrite skipn_length in Hs.
   rewrite nth_skipn_q in Hs. rewrite Nat.add_comm. apply Hs; lia.
 Qed.
+
+(* ---- soundness of the monotone-within-cycles checker and of the model-2 range checker ---- *)
+
+Lemma mod_succ_case p m : (m <> 0)%nat ->
+  (S p mod m = if Nat.eqb (S (p mod m)) m then 0 else S (p mod m))%nat.
+Proof.
+  intros Hm. pose proof (Nat.div_mod p m Hm) as Hp. pose proof (Nat.mod_upper_bound p m Hm) as Hu.
+  destruct (Nat.eqb_spec (S (p mod m)) m) as [E|E].
+  - replace (S p) with (0 + (S (p / m)) * m)%nat by nia. rewrite Nat.mod_add by assumption. apply Nat.mod_0_l. assumption.
+  - replace (S p) with (S (p mod m) + (p / m) * m)%nat by nia. rewrite Nat.mod_add by assumption. apply Nat.mod_small. lia.
+Qed.
+
+(* [prev] sits at position p-1, the elements of l at p, p+1, ...; c is p mod m *)
+Lemma noninc_cycles_sound tol m : (m <> 0)%nat ->
+  forall l p c prev, c = (p mod m)%nat -> noninc_cycles tol m c prev l = true ->
+  forall j, (j < length l)%nat -> ((p + j) mod m <> 0)%nat ->
+    nth (S j) (prev :: l) 0 <= nth j (prev :: l) 0 + slack tol (nth j (prev :: l) 0).
+Proof.
+  intros Hm. induction l as [|x r IH]; intros p c prev Hc H j Hj Hmod; cbn in Hj. lia.
+  cbn [noninc_cycles] in H.
+  assert (Hc' : (if Nat.eqb (S c) m then 0 else S c)%nat = (S p mod m)%nat) by (subst c; symmetry; apply mod_succ_case; assumption).
+  destruct j as [|j].
+  - rewrite Nat.add_0_r in Hmod. destruct (Nat.eqb_spec c 0) as [E|E]; [congruence|].
+    cbn [nth]. destruct (Qleb_spec x (prev + slack tol prev)); [assumption|discriminate].
+  - assert (Hr : noninc_cycles tol m (if Nat.eqb (S c) m then 0 else S c)%nat x r = true).
+    { destruct (Nat.eqb c 0); [exact H|]. destruct (Qleb x (prev + slack tol prev)); [exact H|discriminate]. }
+    change (nth (S (S j)) (prev :: x :: r) 0) with (nth (S j) (x :: r) 0).
+    change (nth (S j) (prev :: x :: r) 0) with (nth j (x :: r) 0).
+    apply (IH (S p) _ x Hc' Hr j). lia. replace (S p + j)%nat with (p + S j)%nat by lia. exact Hmod.
+Qed.
+
+Definition cycle_of (idx : nat) (l : list Q) : nat := if Nat.eqb idx 0 then length l else idx.
+
+(* the checker accepts only series that, inside every cycle, never rise by more than the stated slack (none for tol = 0) *)
+Theorem noninc_between_sound tol idx l : noninc_between tol idx l = true ->
+  forall j, (S j < length l)%nat -> (S j mod cycle_of idx l <> 0)%nat ->
+    nth (S j) l 0 <= nth j l 0 + slack tol (nth j l 0).
+Proof.
+  unfold noninc_between, cycle_of. destruct l as [|x r]; intros H j Hj Hmod; cbn [length] in *. lia.
+  set (m := if Nat.eqb idx 0 then S (length r) else idx) in *.
+  assert (Hm : (m <> 0)%nat) by (unfold m; destruct (Nat.eqb_spec idx 0); lia).
+  assert (Hc : (if Nat.eqb idx 1 then 0 else 1)%nat = (1 mod m)%nat).
+  { unfold m. destruct (Nat.eqb_spec idx 1) as [->|E1]. reflexivity.
+    destruct (Nat.eqb_spec idx 0) as [E0|E0].
+    - destruct r as [|y r]; [cbn in Hj; lia|]. symmetry. apply Nat.mod_small. cbn. lia.
+    - symmetry. apply Nat.mod_small. lia. }
+  apply (noninc_cycles_sound tol m Hm r 1%nat _ x Hc H j). lia. exact Hmod.
+Qed.
+
+Theorem lhs_range_ok_sound Trock Tinj l : lhs_range_ok 0 Trock Tinj l = true ->
+  Forall (fun x => x == Trock \/ (Tinj <= x /\ x <= Trock)) l.
+Proof.
+  induction l as [|x r IH]; cbn [lhs_range_ok]; intros H. constructor.
+  destruct (Qeqb x Trock || (Qleb (Tinj - slack 0 Tinj) x && Qleb x (Trock + slack 0 Trock))) eqn:E; [|discriminate].
+  constructor; [|apply IH; exact H].
+  apply orb_true_iff in E. destruct E as [E|E]. left. apply Qeqb_true. exact E.
+  apply andb_true_iff in E. destruct E as [E1 E2]. apply Qleb_true in E1, E2. unfold slack in *. right. lra.
+Qed.
